@@ -103,7 +103,11 @@ func RunParent(p *Prop, tier string) int {
 			out := filepath.Join(runDir, fmt.Sprintf("w%d.json", i))
 			cmd := exec.Command(self, "-worker", "-prop", p.ID, "-tier", tier, "-shard", strconv.Itoa(i),
 				"-of", strconv.Itoa(nw), "-seed", strconv.FormatInt(seed, 10), "-out", out)
-			cmd.Env = append(os.Environ(), "GOMAXPROCS=2", "GOMEMLIMIT=3GiB", "TMPDIR="+runDir)
+			procs := "GOMAXPROCS=2"
+			if p.Instr {
+				procs = "GOMAXPROCS=1" // cooperative hand-offs are direct goroutine switches on one P
+			}
+			cmd.Env = append(os.Environ(), procs, "GOMEMLIMIT=3GiB", "TMPDIR="+runDir)
 			var stderr bytes.Buffer
 			cmd.Stderr = &stderr
 			cmd.Stdout = &stderr
@@ -404,7 +408,7 @@ func RunReplay(lookup func(string) *Prop, path string, quiet bool) int {
 	}
 	tier := v.Tier
 	c := NewCtx(p.ID, tier, 0, 1, 0, time.Hour)
-	c.Replay, c.ReplayScope, c.ReplayIndex, c.Verbose = true, v.Scope, v.Index, !quiet
+	c.Replay, c.ReplayScope, c.ReplayIndex, c.ReplayExtra, c.Verbose = true, v.Scope, v.Index, v.Extra, !quiet
 	if msg := Guard(func() { p.Run(c) }); msg != "" {
 		fmt.Fprintln(os.Stderr, "driver", msg)
 		return 2
